@@ -743,6 +743,44 @@ def pyramid_plan(rng, tier):
     return plan
 
 
+def jpg_parent_check(V, base, start, cfg, seedinfo):
+    """jpg tiles are lossy, so the model only fixes which tiles exist.  The statement still says a parent is
+    the reduction of its *stored* children: decode the stored children (PIL), reduce them with the numpy
+    expansion of the model, encode the result the way any RGB tile is stored (PIL JPEG, default settings)
+    and compare with the stored parent, exactly.  Returns the number of parents compared."""
+    import io as _io
+    from PIL import Image as PILImage
+    dec = {}
+    for root, _dirs, names in os.walk(base):
+        for nm in names:
+            if not nm.endswith(".jpg"):
+                continue
+            rel = os.path.relpath(os.path.join(root, nm), base).split(os.sep)
+            if len(rel) != 3:
+                continue
+            y, x = rel[2].rsplit(".", 1)[0].split("_")
+            dec[(int(rel[0]), int(x), int(y))] = np.asarray(PILImage.open(os.path.join(root, nm)).convert("RGB"))
+    n = 0
+    for p in sorted(dec, key=lambda q: -q[0]):
+        if p[0] >= start:
+            continue
+        ch = [(("RGB", dec[c]) if c in dec else None) for c in children_of(p)]
+        exp = mirror_merge("jpg", TILE, ch, "fixed")
+        if exp is None:
+            continue
+        buf = _io.BytesIO()
+        PILImage.fromarray(exp[1]).convert("RGB").save(buf, format="JPEG")
+        want = np.asarray(PILImage.open(_io.BytesIO(buf.getvalue())).convert("RGB"))
+        n += 1
+        if want.shape != dec[p].shape or not np.array_equal(want, dec[p]):
+            diff = int(np.abs(want.astype(int) - dec[p].astype(int)).max()) if want.shape == dec[p].shape else -1
+            V.disagreement("C02 on jpg pyramids: a parent is the (re-encoded) 2x2 reduction of its stored children",
+                           dict(type="pyramid", cfg=list(cfg), seed=seedinfo, parent=list(p)),
+                           "JPEG(reduction of the decoded stored children)", dict(max_abs_difference=diff), True)
+            break
+    return n
+
+
 def compare_pyramid(V, cfg, leaves, files, seedinfo, stale=None):
     """model (numpy expansion) vs implementation, plus the property predicate.
     Returns (n_tiles_compared, nontrivial?)"""
@@ -855,6 +893,7 @@ def run(ctx, V):
     n_tiles = 0
     n_pyr = 0
     n_stale = 0
+    n_jpg = 0
     nontrivial = set()
     samples = []
     for i, cfg in enumerate(plan):
@@ -886,6 +925,8 @@ def run(ctx, V):
             shutil.rmtree(d, ignore_errors=True)
             continue
         nt, ne = compare_pyramid(V, cfg, leaves, files, seedinfo, stale=stale)
+        if fmt == "jpg":
+            n_jpg += jpg_parent_check(V, d, start, cfg, seedinfo)
         # serial and parallel runs give the same files (order independence): rerun the other way
         if not quick or i % 4 == 0:
             d2 = os.path.join(base, f"p{i}b")
@@ -918,7 +959,7 @@ def run(ctx, V):
              "Model-side: single merges (k=1..4, all modes/parities/sparsity, both integer rules) and whole cascades (k=1,2; start 1,2; "
              "postfix and random children-first orders) evaluated in Coq against the expansion; real averaging_merger on small arrays "
              "(all dtypes, negative ints, NaN) against Merge.averaging_merger; non-trivial merges = distinct (format,k,rule,presence pattern) with 1-3 children present.",
-        real_pyramids=n_pyr, real_tiles_compared=n_tiles, tiles_present_before_the_cascade=n_stale, pixels_compared=n_tiles * TILE * TILE,
+        real_pyramids=n_pyr, real_tiles_compared=n_tiles, tiles_present_before_the_cascade=n_stale, jpg_parents_compared=n_jpg, pixels_compared=n_tiles * TILE * TILE,
         small_merges=len(mcs), small_cascades=len(ccs), averaging_cases=len(acs),
         placement={f"{f}/{k}": v for (f, k), v in _PLACEMENT.items() if k == TILE},
         input_histogram=hist, samples=samples)
